@@ -191,6 +191,10 @@ type Runner struct {
 	ShrinkReject func(req, impl, model string) bool
 	// TieOnly: a plain model/implementation mismatch is a broken tie, not a failing input.
 	TieOnly bool
+	// KindOf, when set, classifies a plain mismatch ("failing-input" or "tie-broken"): requests whose
+	// answer is a prediction about the code's shape (not an observable the property talks about)
+	// break the tie when they differ; "" keeps the default.
+	KindOf func(d *Disagreement) string
 	// ShrinkBudget bounds the re-executions spent on shrinking one disagreement (default 60) and
 	// ShrinkMax the number of disagreements that get shrunk (default 40); lower them when one
 	// execution of a case is expensive.
@@ -322,6 +326,11 @@ func (r *Runner) record(d Disagreement) {
 		d.Kind = "failing-input"
 		if r.TieOnly {
 			d.Kind = "tie-broken"
+		}
+		if r.KindOf != nil {
+			if k := r.KindOf(&d); k != "" {
+				d.Kind = k
+			}
 		}
 	}
 	max := 40
